@@ -491,7 +491,7 @@ def run(chk):
             else:
                 (outcomes_short if short else outcomes).append(cT(post_l, o))
                 (outcome_short_src if short else outcome_src).append(f"{r['id']}#{si}")
-            atomics.append((cT(init_l, ops), cond, bool(why)))
+            atomics.append((cT(init_l, ops), cond, bool(why), short))
             if len(chk.samples) < 6 and (crash or si):
                 chk.sample({"case": r["id"], "step": si, "writer": step["writer"], "kill": crash,
                             "post_view": [(e["name"], e["state"], e.get("ver") or e.get("digest") or e.get("exc"))
@@ -516,9 +516,10 @@ def run(chk):
             "rc_welif_old := rc_welif_old rc_now |}.\n")
     txt += (f"Definition outcomes_short := {cL(outcomes_short)}.\n"
             "Eval vm_compute in (mism (chk_outcome rc_now_short) outcomes_short).\n")
-    txt += f"Definition atomics := {cL([a[0] for a in atomics])}.\nEval vm_compute in (mism (chk_atomic rc_now) atomics).\n"
+    txt += (f"Definition atomics := {cL([a[0] for a in atomics])}.\nEval vm_compute in (mism (chk_atomic rc_now) atomics).\n"
+            "Eval vm_compute in (mism (chk_atomic rc_now_short) atomics).\n")
     ok, evals, err = chk.coq_run("cases", txt)
-    if not ok or len(evals) != 5:
+    if not ok or len(evals) != 6:
         chk.oblige("correspondence batch evaluated in Coq", "correspondence", False, err)
         return
     bad = common.parse_nat_list(evals[0])
@@ -535,11 +536,12 @@ def run(chk):
                "mismatch in: " + ", ".join([outcome_src[i] for i in bad[:6]] + [outcome_short_src[i] for i in bad2[:6]]))
     # verdict of the checker on the real initial directories vs what happened (informational)
     unsafe = set(common.parse_nat_list(evals[4]))
-    agree = sum(1 for i, a in enumerate(atomics) if (i in unsafe) or not a[2])
+    unsafe_short = set(common.parse_nat_list(evals[5]))
+    unexplained = [i for i, a in enumerate(atomics) if a[2] and i not in (unsafe_short if a[3] else unsafe)]
     chk.notes.append(f"checker verdict on the {len(atomics)} real initial directories: {len(unsafe)} judged not crash-atomic "
-                     f"(all with a torn model.pt left by an earlier kill: "
-                     f"{all(atomics[i][1] == 'weights-primary-torn' for i in unsafe)}); every real failure started from a "
-                     f"directory the checker rejects: {agree == len(atomics)}")
+                     f"(all of them with a torn model.pt left by an earlier kill: "
+                     f"{all(atomics[i][1] == 'weights-primary-torn' for i in unsafe)}); real failures that started from a "
+                     f"directory the checker accepts (under the oracle class actually observed): {len(unexplained)}")
     chk.traces = len(traces) + len(states) + len(outcomes) + len(outcomes_short)
 
 
